@@ -29,11 +29,21 @@ def item_recs(m):
     return out
 
 
-def mem_state():
-    from vsc.impl.coverage_registry import CoverageRegistry
+def mem_state(insts):
+    """the coverage held in memory, reached from the instances the scenario created (not through the registry's own listing):
+    type covergroups grouped by covergroup class in order of first registration, parameter variants in order of creation"""
+    groups = {}
+    order = []
+    for cls_id, inst in insts:
+        t = inst.get_model().type_cg
+        if cls_id not in groups:
+            groups[cls_id] = []
+            order.append(cls_id)
+        if not any(t is x for x in groups[cls_id]):
+            groups[cls_id].append(t)
     types = []
     covs = []
-    for t in CoverageRegistry.inst().covergroup_types():
+    for t in [t for c in order for t in groups[c]]:
         types.append({"cg": {"name": t.typename, "weight": t.options.weight, "items": item_recs(t)},
                       "insts": [{"name": i.instname if i.instname is not None else i.name, "weight": 1,
                                  "items": item_recs(i)} for i in t.cg_inst_l]})
@@ -92,12 +102,24 @@ def tree_of_text(txt):
 def run(case):
     reset_registry()
     insts = []
+    made = []
     for op in case["ops"]:
         if op[0] == "new":
             insts.append(quiet(cg_class(op[1]), case["params"][op[2]]))
+            made.append((op[1], insts[-1]))
+        elif op[0] == "report":
+            # a report / save in the middle of the history
+            quiet(vsc.get_coverage_report_model)
+            quiet(vsc.get_coverage_report, True)
+            fd, path = tempfile.mkstemp(suffix=".xml", dir=".")
+            os.close(fd)
+            try:
+                quiet(vsc.write_coverage_db, path)
+            finally:
+                os.unlink(path)
         else:
             quiet(sample, insts[op[1]], op[2])
-    before, covs = mem_state()
+    before, covs = mem_state(made)
     rpt = quiet(vsc.get_coverage_report_model)
     txt = quiet(vsc.get_coverage_report, True)
     fd, path = tempfile.mkstemp(suffix=".xml", dir=".")
@@ -109,7 +131,7 @@ def run(case):
         xrpt = quiet(lambda: CoverageReportBuilder.build(XmlFactory.read(path)))
     finally:
         os.unlink(path)
-    after, _ = mem_state()
+    after, _ = mem_state(made)
     return {"before": before, "covs": covs, "report": tree_of_report(rpt), "text": tree_of_text(txt),
             "xml": tree_of_report(xrpt), "after": after}
 
